@@ -166,7 +166,7 @@ class Sched:
             return
         nxt = self.pick_next()
         if nxt is None:
-            alive = [t for t in self.threads if t.state != 'done']
+            alive = [t for t in self.threads if t.state not in ('done', 'new')]     # a thread that was never started blocks nobody
             if alive:
                 self.deadlock = [(t.name, t.state, t.why) for t in alive]
                 self._abort(me)
@@ -292,6 +292,8 @@ def make_fakes(sched):
 
         def start(self):
             sched.yield_point('Thread.start')
+            if self.st.started:
+                raise RuntimeError('threads can only be started once')          # as threading.Thread does
             self.st.start_real()
 
         def is_alive(self):
@@ -300,6 +302,8 @@ def make_fakes(sched):
 
         def join(self, timeout=None):
             sched.yield_point('Thread.join')
+            if not self.st.started:
+                raise RuntimeError('cannot join thread before it is started')     # as threading.Thread does
             if self.st.started and self.st.state != 'done':
                 sched.block(lambda: self.st.state == 'done', 'Thread.join')
 
